@@ -1790,3 +1790,324 @@ Example ex_lenient : parse ex_f true (T ["x"; "2"; "y"; "--nope"; "--verbose=1";
                      parse ex_f true (T ["x"; "2"; "y"; "--nope"; "--verbose=1"; "--num"]) <> Err CannotParse.
 Proof. exact (lenient_no_parse_error ex_f ex_f' ex_far ex_fcn _ ex_f_aug ex_f_opts_ok). Qed.
 Close Scope string_scope.
+
+(* ================= 9. the options of the augmented format are the options the format lists =================
+   so the hypotheses on f' of clauses 1-3 can be read off the option list of f itself *)
+Definition opt_named (o : opt) (n : str) : bool :=
+  str_eqb n (o_long o) || match o_short o with Some s => str_eqb n s | None => false end.
+Definition shorts_of (L : list opt) (d : list (str * opt)) : list (str * opt) :=
+  fold_left (fun d o => match o_short o with Some s => sset s o d | None => d end) L d.
+Definition longs_of (L : list opt) : list (str * opt) := map (fun o => (o_long o, o)) L.
+(* long names are distinct; a short name identifies its option among all long and short names *)
+Definition names_ok (L : list opt) : Prop :=
+  NoDup (map o_long L) /\
+  forall o s, In o L -> o_short o = Some s ->
+    forall o2, In o2 L -> (o_long o2 = s \/ o_short o2 = Some s) -> o2 = o.
+
+Lemma shorts_of_has n L : forall d,
+  shas n (shorts_of L d) = shas n d || existsb (fun o => match o_short o with Some s => str_eqb n s | None => false end) L.
+Proof.
+  unfold shorts_of. induction L as [|o r IH]; intros d; cbn [fold_left existsb]; [now rewrite orb_false_r|].
+  rewrite IH. destruct (o_short o) as [s|]; [|reflexivity].
+  unfold shas, ahas, sset. rewrite sget_sset. destruct (str_eqb n s); [now rewrite orb_true_r|reflexivity].
+Qed.
+Lemma shorts_of_get n L : forall d o, sget n (shorts_of L d) = Some o ->
+  sget n d = Some o \/ (In o L /\ o_short o = Some n).
+Proof.
+  unfold shorts_of. induction L as [|x r IH]; intros d o; cbn [fold_left]; [auto|].
+  intros H. apply IH in H as [H|[H1 H2]]; [|right; split; [now right|exact H2]].
+  destruct (o_short x) as [s|] eqn:Es; [|auto].
+  unfold sget, sset in H. rewrite sget_sset in H. destruct (str_eqb_spec n s) as [->|]; [|auto].
+  inversion H; subst. right. split; [now left|exact Es].
+Qed.
+Lemma longs_of_get n L o : sget n (longs_of L) = Some o -> In o L /\ o_long o = n.
+Proof.
+  unfold longs_of. induction L as [|x r IH]; cbn [map aget sget]; [discriminate|].
+  unfold sget. cbn [aget]. destruct (str_eqb_spec n (o_long x)) as [->|].
+  - intros H; inversion H; subst. split; [now left|reflexivity].
+  - intros H. apply IH in H as [H1 H2]. split; [now right|exact H2].
+Qed.
+Lemma longs_of_has n L : shas n (longs_of L) = existsb (fun o => str_eqb n (o_long o)) L.
+Proof.
+  unfold longs_of, shas, ahas. induction L as [|x r IH]; cbn [map aget existsb]; [reflexivity|].
+  destruct (str_eqb n (o_long x)); [reflexivity|exact IH].
+Qed.
+Lemma longs_of_nodup_get L o : NoDup (map o_long L) -> In o L -> sget (o_long o) (longs_of L) = Some o.
+Proof.
+  unfold longs_of, sget. induction L as [|x r IH]; intros Hnd Hin; [contradiction|]. cbn [map aget].
+  inversion Hnd as [|? ? Hx Hr]; subst.
+  destruct Hin as [->|Hin]; [now rewrite str_eqb_refl|].
+  destruct (str_eqb_spec (o_long o) (o_long x)) as [E|]; [|now apply IH].
+  exfalso. apply Hx. rewrite <- E. now apply in_map.
+Qed.
+
+(* the other fields are left alone by the additions of command names and arguments *)
+Definition opt_fields (f : fmt) := (f_copts f, f_copts_short f, f_opts f, f_opts_short f).
+Lemma add_cnames_opts cs : forall f f1, add_elements f (map ECName cs) = Ok f1 -> opt_fields f1 = opt_fields f.
+Proof.
+  induction cs as [|c r IH]; intros f f1; cbn [map add_elements].
+  - intros H. inversion H. auto.
+  - destruct f as [b cn co cs' ar os oss hm ho]. cbn [add_command_name bind]. intros H. apply IH in H. exact H.
+Qed.
+Lemma add_args_opts l : forall f f1,
+  add_elements f (map (fun na : str * arg => EArg (snd na)) l) = Ok f1 -> opt_fields f1 = opt_fields f.
+Proof.
+  induction l as [|[k a] r IH]; intros f f1; cbn [map add_elements snd].
+  - intros H. inversion H. auto.
+  - unfold add_argument. destruct (has_argument f (AName (a_name a)) true); [discriminate|].
+    destruct (has_multi_all f); [discriminate|]. destruct (a_required a && has_optional_all f); [discriminate|].
+    destruct f as [b cn co cs' ar os oss hm ho]. cbn [bind]. intros H. apply IH in H. exact H.
+Qed.
+
+Lemma add_opts_inv L2 : forall f f1 L1,
+  f_base f = None -> f_copts f = [] -> f_copts_short f = [] ->
+  f_opts f = longs_of L1 -> f_opts_short f = shorts_of L1 [] -> names_ok L1 ->
+  add_elements f (map EOpt L2) = Ok f1 ->
+  f_base f1 = None /\ f_copts f1 = [] /\ f_copts_short f1 = [] /\
+  f_opts f1 = longs_of (L1 ++ L2) /\ f_opts_short f1 = shorts_of (L1 ++ L2) [] /\ names_ok (L1 ++ L2).
+Proof.
+  induction L2 as [|o r IH]; intros f f1 L1 Hb Hco Hcs Hos Hoss Hok; cbn [map add_elements].
+  - intros H. inversion H; subst. rewrite app_nil_r. auto 10.
+  - unfold add_option. destruct (opt_name_taken f (o_long o)) eqn:Hl; [discriminate|].
+    destruct (optname_taken f (o_short o)) eqn:Hs; [discriminate|].
+    destruct f as [b cn co cs' ar os oss hm ho]. cbn [f_base f_copts f_copts_short f_opts f_opts_short] in *. subst b co cs' os oss.
+    cbn [bind]. intros H.
+    assert (forall n, opt_name_taken (Fmt None cn [] [] ar (longs_of L1) (shorts_of L1 []) hm ho) n = false ->
+              (forall o2, In o2 L1 -> o_long o2 <> n) /\ (forall o2, In o2 L1 -> o_short o2 <> Some n)) as Hfresh.
+    { intros n Hn. unfold opt_name_taken in Hn. cbn [has_option_all has_command_option_all] in Hn.
+      assert (shas n (longs_of L1) = false /\ shas n (shorts_of L1 []) = false) as [Hn1 Hn2].
+      { destruct (shas n (longs_of L1)), (shas n (shorts_of L1 [])); cbn in Hn; auto; discriminate. }
+      rewrite longs_of_has in Hn1. rewrite shorts_of_has in Hn2. cbn [shas ahas aget orb] in Hn2.
+      split; intros o2 Hin Heq.
+      - assert (existsb (fun o => str_eqb n (o_long o)) L1 = true) as Hx; [|congruence].
+        apply existsb_exists. exists o2. split; [exact Hin|]. rewrite Heq. apply str_eqb_refl.
+      - assert (existsb (fun o => match o_short o with Some s => str_eqb n s | None => false end) L1 = true) as Hx; [|congruence].
+        apply existsb_exists. exists o2. split; [exact Hin|]. rewrite Heq. apply str_eqb_refl. }
+    destruct (Hfresh _ Hl) as [Fl1 Fl2].
+    assert (sset (o_long o) o (longs_of L1) = longs_of (L1 ++ [o])) as Hset.
+    { unfold sset. rewrite sset_absent.
+      - unfold longs_of. rewrite map_app. reflexivity.
+      - apply notin_sget_none. unfold longs_of. rewrite map_map. cbn [fst]. intros Hin.
+        apply in_map_iff in Hin as (o2 & He & Hin). exact (Fl1 o2 Hin He). }
+    assert ((match o_short o with Some s => sset s o (shorts_of L1 []) | None => shorts_of L1 [] end) = shorts_of (L1 ++ [o]) []) as Hsh.
+    { unfold shorts_of. rewrite fold_left_app. reflexivity. }
+    rewrite Hset, Hsh in H.
+    replace (L1 ++ o :: r) with ((L1 ++ [o]) ++ r) by (rewrite <- app_assoc; reflexivity).
+    apply (IH _ _ (L1 ++ [o])) in H; auto. clear H IH.
+    destruct Hok as [Hnd Huniq]. split.
+    + rewrite map_app. cbn [map]. apply NoDup_app_snoc; [exact Hnd|].
+      intros Hin. apply in_map_iff in Hin as (o2 & He & Hin). exact (Fl1 o2 Hin He).
+    + assert (forall s, o_short o = Some s ->
+                (forall o2, In o2 L1 -> o_long o2 <> s) /\ (forall o2, In o2 L1 -> o_short o2 <> Some s)) as Fs.
+      { intros s Es. rewrite Es in Hs. cbn [optname_taken] in Hs. exact (Hfresh _ Hs). }
+      intros o1 s Hin1 Es o2 Hin2 Hname.
+      apply in_app_or in Hin1 as [Hin1|[<-|[]]]; apply in_app_or in Hin2 as [Hin2|[<-|[]]].
+      * eapply Huniq; eauto.
+      * exfalso. destruct Hname as [Hn|Hn]; [exact (Fl2 o1 Hin1 (eq_trans Es (f_equal Some (eq_sym Hn))))|].
+        destruct (Fs s Hn) as [_ F2]. exact (F2 o1 Hin1 Es).
+      * exfalso. destruct (Fs s Es) as [F1 F2]. destruct Hname as [Hn|Hn]; [exact (F1 o2 Hin2 Hn)|exact (F2 o2 Hin2 Hn)].
+      * reflexivity.
+Qed.
+
+Lemma shorts_of_longs L : forall d,
+  fold_left (fun d (no : str * opt) => match o_short (snd no) with Some s => sset s (snd no) d | None => d end) (longs_of L) d
+  = shorts_of L d.
+Proof. unfold shorts_of, longs_of. induction L as [|o r IH]; intros d; cbn [map fold_left snd]; [reflexivity|apply IH]. Qed.
+
+Lemma existsb_map {X Y} (g : Y -> bool) (h : X -> Y) l : existsb g (map h l) = existsb (fun x => g (h x)) l.
+Proof. induction l as [|x r IH]; cbn; [reflexivity|now rewrite IH]. Qed.
+Lemma existsb_orb {X} (g h : X -> bool) l : existsb g l || existsb h l = existsb (fun x => g x || h x) l.
+Proof.
+  induction l as [|x r IH]; cbn; [reflexivity|]. rewrite <- IH.
+  destruct (g x), (h x), (existsb g r), (existsb h r); reflexivity.
+Qed.
+
+(* the option indexes of the augmented format *)
+Record aug_opts_ok (f : fmt) (f' : fmt) : Prop := {
+  ao_names : names_ok (map snd (get_options_all f));
+  ao_has : forall n, has_option f' n true = existsb (fun no => opt_named (snd no) n) (get_options_all f);
+  ao_get : forall n o, get_option f' n true = Ok o ->
+             In o (map snd (get_options_all f)) /\ opt_named o n = true;
+  ao_long : forall o, In o (map snd (get_options_all f)) ->
+             has_option f' (o_long o) true = true /\ get_option f' (o_long o) true = Ok o;
+  ao_short : forall o s, In o (map snd (get_options_all f)) -> o_short o = Some s ->
+             has_option f' s true = true /\ get_option f' s true = Ok o }.
+
+Lemma aug_format_opts f f' ar cns : aug_format f = Ok (f', ar, cns) -> aug_opts_ok f f'.
+Proof.
+  unfold aug_format. intros H.
+  destruct (format_of_elements _ None) as [f0|k] eqn:E; cbn [bind] in H; [|discriminate].
+  inversion H; subst f0. clear H. unfold format_of_elements in E.
+  destruct (add_elements (empty_builder None) _) as [b|k] eqn:Eb; cbn [bind] in E; [|discriminate].
+  inversion E; subst f'. clear E.
+  rewrite add_elements_app in Eb.
+  destruct (add_elements (empty_builder None) (map ECName (get_command_names_all f))) as [b1|k] eqn:E1; cbn [bind] in Eb; [|discriminate].
+  rewrite add_elements_app in Eb.
+  destruct (add_elements b1 (map (fun na : str * arg => EArg (snd na)) _)) as [b2|k] eqn:E2; cbn [bind] in Eb; [|discriminate].
+  pose proof (add_cnames_opts _ _ _ E1) as O1. apply add_cnames_args in E1 as [B1 A1].
+  pose proof (add_args_opts _ _ _ E2) as O2.
+  assert (f_base b2 = None) as B2.
+  { apply add_args_args in E2; [tauto|exact B1|]. rewrite A1. constructor. }
+  rewrite O1 in O2. unfold opt_fields in O2. cbn [empty_builder f_copts f_copts_short f_opts f_opts_short] in O2.
+  inversion O2 as [[C1 C2 C3 C4]]. clear O1 O2. rewrite C1 in C2. rewrite C3 in C4.
+  set (L := map snd (get_options_all f)) in *.
+  replace (map (fun no : str * opt => EOpt (snd no)) (get_options_all f)) with (map EOpt L) in Eb
+    by (unfold L; rewrite map_map; reflexivity).
+  apply (add_opts_inv L b2 b []) in Eb; auto;
+    [|split; [constructor|intros ? ? []]].
+  cbn [app] in Eb. destruct Eb as (Bb & Cb & Csb & Ob & Osb & Hok).
+  destruct b as [bb cn co cs ar' os oss hm ho]. cbn [f_base f_copts f_copts_short f_opts f_opts_short] in *. subst bb co cs os oss.
+  unfold build_format. cbn [map index_copts fold_left]. rewrite shorts_of_longs.
+  destruct Hok as [Hnd Huniq].
+  assert (forall n o, get_option (Fmt None cn [] [] ar' (longs_of L) (shorts_of L []) hm ho) n true = Ok o ->
+            In o L /\ opt_named o n = true) as Hget.
+  { intros n o. cbn [get_option get_option_all]. unfold opt_named.
+    destruct (sget n (longs_of L)) as [o1|] eqn:G1.
+    - intros Ho; inversion Ho; subst. apply longs_of_get in G1 as [Hin <-]. split; [exact Hin|]. now rewrite str_eqb_refl.
+    - destruct (sget n (shorts_of L [])) as [o2|] eqn:G2; [|discriminate].
+      intros Ho; inversion Ho; subst. apply shorts_of_get in G2 as [G2|[Hin Hs]]; [discriminate|].
+      split; [exact Hin|]. rewrite Hs, str_eqb_refl. apply orb_true_r. }
+  constructor.
+  - split; assumption.
+  - intros n. cbn [has_option has_option_all]. rewrite orb_false_r, longs_of_has, shorts_of_has. cbn [shas ahas aget orb].
+    unfold L, opt_named. rewrite !existsb_map, existsb_orb. reflexivity.
+  - exact Hget.
+  - intros o Hin. cbn [has_option has_option_all get_option get_option_all].
+    rewrite shas_sget, (longs_of_nodup_get L o Hnd Hin). split; reflexivity.
+  - intros o s Hin Hs. cbn [has_option has_option_all get_option get_option_all].
+    assert (shas s (shorts_of L []) = true) as Hsh.
+    { rewrite shorts_of_has. cbn [shas ahas aget orb]. apply existsb_exists. exists o. split; [exact Hin|].
+      rewrite Hs. apply str_eqb_refl. }
+    split; [rewrite Hsh, orb_false_r; apply orb_true_r|].
+    destruct (sget s (longs_of L)) as [o1|] eqn:G1.
+    + apply longs_of_get in G1 as [Hin1 Hl1]. f_equal. apply (Huniq o s Hin Hs o1 Hin1). now left.
+    + rewrite shas_sget in Hsh. destruct (sget s (shorts_of L [])) as [o2|] eqn:G2; [|discriminate].
+      apply shorts_of_get in G2 as [G2|[Hin2 Hs2]]; [discriminate|]. f_equal. apply (Huniq o s Hin Hs o2 Hin2). now right.
+Qed.
+
+(* ---- clauses 1-3 again, with the hypotheses read off the option list of f ---- *)
+Definition listed (f : fmt) (o : opt) : Prop := In o (map snd (get_options_all f)).
+(* n is neither the long nor the short name of any option the format lists (own or inherited) *)
+Definition unknown_name (f : fmt) (n : str) : bool := negb (existsb (fun no => opt_named (snd no) n) (get_options_all f)).
+(* x is the short name of a listed option that takes no value *)
+Definition is_flag (f : fmt) (x : N) : bool :=
+  existsb (fun no => match o_short (snd no) with Some s => str_eqb s [x] | None => false end &&
+                     negb (o_accepts (snd no)) && negb (o_required (snd no)) && negb (o_multi (snd no)))
+          (get_options_all f).
+
+Lemma named_get f f' o n : aug_opts_ok f f' -> listed f o -> opt_named o n = true ->
+  has_option f' n true = true /\ get_option f' n true = Ok o.
+Proof.
+  intros Hao Hl Hn. unfold opt_named in Hn. apply orb_prop in Hn as [Hn|Hn].
+  - destruct (str_eqb_spec n (o_long o)) as [->|]; [|discriminate]. apply (ao_long _ _ Hao), Hl.
+  - destruct (o_short o) as [s|] eqn:Es; [|discriminate].
+    destruct (str_eqb_spec n s) as [->|]; [|discriminate]. apply (ao_short _ _ Hao); assumption.
+Qed.
+Lemma unknown_has f f' n : aug_opts_ok f f' -> unknown_name f n = true -> has_option f' n true = false.
+Proof. intros Hao Hu. rewrite (ao_has _ _ Hao). now apply negb_true_iff. Qed.
+Lemma flag_listed f f' x : aug_opts_ok f f' -> is_flag f x = true -> flag_ok f' x = true.
+Proof.
+  intros Hao Hf. unfold is_flag in Hf. apply existsb_exists in Hf as ([k o] & Hin & Hc). cbn [snd] in Hc.
+  apply andb_prop in Hc as [Hc Hm]. apply andb_prop in Hc as [Hc Hr]. apply andb_prop in Hc as [Hs Ha].
+  destruct (o_short o) as [s|] eqn:Es; [|discriminate]. destruct (str_eqb_spec s [x]) as [->|]; [|discriminate].
+  assert (listed f o) as Hl by (apply in_map_iff; exists (k, o); auto).
+  destruct (ao_short _ _ Hao o [x] Hl Es) as [H1 H2]. destruct (ao_long _ _ Hao o Hl) as [H3 H4].
+  unfold flag_ok. rewrite H1, H2, H3, H4, Ha, Hr, Hm. reflexivity.
+Qed.
+Lemma flags_listed f f' flags : aug_opts_ok f f' -> forallb (is_flag f) flags = true -> forallb (flag_ok f') flags = true.
+Proof.
+  intros Hao. rewrite !forallb_forall. intros H x Hx. eapply flag_listed; eauto.
+Qed.
+
+Section Listed.
+  Context (f f' : fmt) (ar : list (str * arg)) (cns : list (str * cname)) (pre : list str) (st : pstate).
+  Hypothesis Haug : aug_format f = Ok (f', ar, cns).
+  Hypothesis Hscan : scans f' pre st.              (* the tokens before are processed without error ... *)
+  Hypothesis Hdd : existsb is_dd pre = false.      (* ... and "--" is not among them *)
+
+  Theorem unknown_long_option_listed name rest :
+    name <> [] -> no_eq name = true -> unknown_name f name = true ->
+    parse f false (pre ++ long_tok name :: rest) = Err NoSuchOption.
+  Proof.
+    intros Hne Hq Hu. eapply unknown_long_option; eauto. eapply unknown_has; eauto. eapply aug_format_opts; eauto.
+  Qed.
+  Theorem unknown_long_option_eq_listed name value rest :
+    no_eq name = true -> unknown_name f name = true ->
+    parse f false (pre ++ long_tok (name ++ EQ :: value) :: rest) = Err NoSuchOption.
+  Proof.
+    intros Hq Hu. eapply unknown_long_option_eq; eauto. eapply unknown_has; eauto. eapply aug_format_opts; eauto.
+  Qed.
+  Theorem unknown_short_option_listed flags c more rest :
+    starts_dash (flags ++ c :: more) = false -> forallb (is_flag f) flags = true -> unknown_name f [c] = true ->
+    parse f false (pre ++ short_tok (flags ++ c :: more) :: rest) = Err NoSuchOption.
+  Proof.
+    intros Hd Hf Hu. pose proof (aug_format_opts _ _ _ _ Haug) as Hao.
+    eapply unknown_short_option; eauto; [eapply flags_listed; eauto|eapply unknown_has; eauto].
+  Qed.
+
+  Theorem flag_given_value_listed o name value rest :
+    listed f o -> opt_named o name = true -> no_eq name = true -> o_accepts o = false ->
+    parse f false (pre ++ long_tok (name ++ EQ :: value) :: rest) = Err CannotParse.
+  Proof.
+    intros Hl Hn Hq Ha. destruct (named_get f f' o name (aug_format_opts _ _ _ _ Haug) Hl Hn) as [Hh Hg].
+    eapply flag_given_value; eauto.
+  Qed.
+
+  Theorem option_value_missing_listed o name rest :
+    listed f o -> opt_named o name = true -> name <> [] -> no_eq name = true -> o_required o = true ->
+    no_value_next rest = true ->
+    parse f false (pre ++ long_tok name :: rest) = Err CannotParse.
+  Proof.
+    intros Hl Hn Hne Hq Hr Hnv. destruct (named_get f f' o name (aug_format_opts _ _ _ _ Haug) Hl Hn) as [Hh Hg].
+    eapply option_value_missing; eauto.
+  Qed.
+  Theorem option_value_empty_listed o name rest :
+    listed f o -> opt_named o name = true -> no_eq name = true -> o_required o = true ->
+    parse f false (pre ++ long_tok (name ++ [EQ]) :: rest) = Err CannotParse.
+  Proof.
+    intros Hl Hn Hq Hr. destruct (named_get f f' o name (aug_format_opts _ _ _ _ Haug) Hl Hn) as [Hh Hg].
+    eapply option_value_empty; eauto.
+  Qed.
+  Theorem short_option_value_missing_listed o flags c rest :
+    listed f o -> o_short o = Some [c] -> o_required o = true ->
+    starts_dash (flags ++ [c]) = false -> forallb (is_flag f) flags = true -> no_value_next rest = true ->
+    parse f false (pre ++ short_tok (flags ++ [c]) :: rest) = Err CannotParse.
+  Proof.
+    intros Hl Hs Hr Hd Hf Hnv. pose proof (aug_format_opts _ _ _ _ Haug) as Hao.
+    destruct (ao_short _ _ Hao o [c] Hl Hs) as [H1 H2]. destruct (ao_long _ _ Hao o Hl) as [H3 H4].
+    eapply short_option_value_missing; eauto. eapply flags_listed; eauto.
+  Qed.
+End Listed.
+
+Open Scope string_scope.
+Example ex_unknown_long_listed : parse ex_f false (T ["server"; "x"; "--opt"; "--nope"; "y"]) = Err NoSuchOption.
+Proof.
+  assert (scans ex_f' (T ["server"; "x"; "--opt"]) (scan_st ex_f' (T ["server"; "x"; "--opt"]))) as Hs by (vm_compute; reflexivity).
+  apply (unknown_long_option_listed ex_f ex_f' ex_far ex_fcn _ _ ex_f_aug Hs eq_refl (S_ "nope") (T ["y"]));
+    [discriminate|reflexivity|vm_compute; reflexivity].
+Qed.
+Example ex_unknown_short_listed : parse ex_f false (T ["x"; "-vqzn"; "3"]) = Err NoSuchOption.
+Proof.
+  assert (scans ex_f' (T ["x"]) (scan_st ex_f' (T ["x"]))) as Hs by (vm_compute; reflexivity).
+  apply (unknown_short_option_listed ex_f ex_f' ex_far ex_fcn _ _ ex_f_aug Hs eq_refl (S_ "vq") 122%N (S_ "n") (T ["3"]));
+    vm_compute; reflexivity.
+Qed.
+Example ex_flag_given_value_listed : parse ex_f false (T ["srv"; "add"; "x"; "--verbose=1"; "--nope"]) = Err CannotParse.
+Proof.
+  assert (scans ex_f' (T ["srv"; "add"; "x"]) (scan_st ex_f' (T ["srv"; "add"; "x"]))) as Hs by (vm_compute; reflexivity).
+  apply (flag_given_value_listed ex_f ex_f' ex_far ex_fcn _ _ ex_f_aug Hs eq_refl
+           (mkopt "verbose" (Some "v") 4 VNone) (S_ "verbose") (S_ "1") (T ["--nope"])); [vm_compute; tauto|reflexivity..].
+Qed.
+Example ex_option_value_missing_listed : parse ex_f false (T ["x"; "--num"; "--verbose"]) = Err CannotParse.
+Proof.
+  assert (scans ex_f' (T ["x"]) (scan_st ex_f' (T ["x"]))) as Hs by (vm_compute; reflexivity).
+  apply (option_value_missing_listed ex_f ex_f' ex_far ex_fcn _ _ ex_f_aug Hs eq_refl
+           (mkopt "num" (Some "n") 520 VNone) (S_ "num") (T ["--verbose"])); [vm_compute; tauto|reflexivity|discriminate|reflexivity..].
+Qed.
+Example ex_short_option_value_missing_listed : parse ex_f false (T ["x"; "-vqn"; ""; "7"]) = Err CannotParse.
+Proof.
+  assert (scans ex_f' (T ["x"]) (scan_st ex_f' (T ["x"]))) as Hs by (vm_compute; reflexivity).
+  apply (short_option_value_missing_listed ex_f ex_f' ex_far ex_fcn _ _ ex_f_aug Hs eq_refl
+           (mkopt "num" (Some "n") 520 VNone) (S_ "vq") 110%N (T [""; "7"])); [vm_compute; tauto|reflexivity..].
+Qed.
+Close Scope string_scope.
